@@ -28,7 +28,7 @@ import (
 )
 
 const (
-	Version     = "instr-v5"
+	Version     = "instr-v6"
 	ModulePath  = "github.com/biogo/hts"
 	HookPath    = ModulePath + "/simhook"
 	SimsyncPath = HookPath + "/simsync"
@@ -319,6 +319,16 @@ func interesting(f *ast.File) bool {
 	return found
 }
 
+// stmtSkip lists byte-pump methods that get no statement-level yields: the
+// flate decompressor calls them once per compressed byte, which multiplies
+// the step count of a run by the file size without adding interleavings
+// (they touch only the decompressor that the calling goroutine owns).
+var stmtSkip = map[string]bool{
+	"bgzf.(*countReader).Read": true, "bgzf.(*countReader).ReadByte": true, "bgzf.(*countReader).offset": true,
+	"bgzf.(*buffer).Read": true, "bgzf.(*buffer).ReadByte": true, "bgzf.(*buffer).hasData": true,
+	"bgzf.(*decompressor).Read": true, "bgzf.(*decompressor).ReadByte": true,
+}
+
 type rewriter struct {
 	fset       *token.FileSet
 	info       *types.Info
@@ -427,7 +437,7 @@ func (rw *rewriter) file_(f *ast.File) (bool, error) {
 		}
 		if fd.Body != nil {
 			rw.walk(reflect.ValueOf(fd.Body), &rtCalls, &sleepCalls, runtimeName, timeName)
-			if rw.stmtYields {
+			if rw.stmtYields && !stmtSkip[rw.pkg+"."+rw.fn] {
 				rw.addYields(fd.Body)
 			}
 		}
